@@ -303,6 +303,11 @@ pub fn gen_rule(d: &Data, r: &mut Rng) -> String {
     if r.chance(1, 20) {
         return r.pick(&RUNTIME_ERR_RULES[..]).to_string();
     }
+    if r.chance(1, 40) && !d.diacritics.is_empty() {
+        let seg = r.pick(&d.simple_cardinals).clone();
+        let dia = *r.pick(&d.diacritics);
+        return format!("{seg}{dia} > {}", r.pick(&d.simple_cardinals));
+    }
     if !d.doc_rules.is_empty() && r.chance(1, 8) {
         return r.pick(&d.doc_rules).clone();
     }
@@ -431,6 +436,14 @@ pub fn gen_call(d: &Data, r: &mut Rng) -> Call {
     if kind != "run" && r.chance(1, 3) {
         // a phrase of several words
         words[0] = format!("{} {}", words[0], gen_word(d, r));
+    }
+    if r.chance(1, 10) && !d.diacritics.is_empty() {
+        // a diacritic on a segment that may not carry it (several prerequisites can fail at
+        // once): the library must report the same error everywhere
+        let k = r.below(words.len());
+        let seg = r.pick(&d.simple_cardinals).clone();
+        let dia = *r.pick(&d.diacritics);
+        words[k] = format!("{}{seg}{dia}a", if r.chance(1, 2) { "p" } else { "" });
     }
     if kind == "run" {
         // word lists contain repeats, and the same word in another spelling
